@@ -132,8 +132,10 @@ Proof.
   match type of EK with match ?t with _ => _ end = _ => destruct t as [u m1 | | |] end;
     try discriminate.
   inversion EK as [[EF Em]]. clear EK.
-  destruct (length (c :: i) - length m1)%nat; [discriminate |]. cbn [firstn] in EF.
-  inversion EF; subst c0. eapply scan_nonneg; eauto.
+  assert (c0 = c) as ->.
+  { revert EF. generalize (match length m1 with 0 => S (length i) | S l => length i - l end)%nat.
+    intros [| n] EF; [discriminate |]. cbn [firstn] in EF. inversion EF; reflexivity. }
+  eapply scan_nonneg; eauto.
 Qed.
 
 (* ---- dates ---- *)
@@ -165,7 +167,7 @@ Proof.
             (ParseExpr.digits_val d <=? days_in_month (ParseExpr.digits_val y) (ParseExpr.digits_val m)))
     eqn:EV; [| discriminate].
   inversion H; subst dt. clear H.
-  rewrite !andb_true_iff in EL, EV. destruct EL as [[Ly _] _]. destruct EV as [[[V1 V2] V3] V4].
+  rewrite !andb_true_iff in EL. rewrite !andb_true_iff in EV. destruct EL as [[Ly _] _]. destruct EV as [[[V1 V2] V3] V4].
   apply Nat.leb_le in Ly.
   assert (B : ParseExpr.digits_val y < 10000).
   { pose proof (digits_val_bound y (forallb_dig y Hy)) as B0.
@@ -407,7 +409,7 @@ Proof.
   eapply okv_bind; [apply okv_any |]. intros is_dat _.
   eapply okv_bind with (P1 := fun cost => opt_all wf_exchange (option_map fst cost) = true).
   - unfold cond. destruct is_at; [| apply okv_ret; reflexivity].
-    apply okv_pmap. simpl. apply okv_with_span, okv_cost.
+    apply okv_pmap. apply (okv_with_span _ _ (fun x => wf_exchange x = true)). apply okv_cost.
   - intros cost Hc. apply okv_ret. unfold wf_posting_amount.
     cbn [fst pa_amount pa_cost pa_lot]. rewrite Ham, Hc, Hlt. reflexivity.
 Qed.
